@@ -83,13 +83,14 @@ class C10(Config):
         "axioms: none",
         "vlib/props/c10.py extractors (prefixes, typecodes, item lengths, F4Jumble bounds, MAX_COMPACT_SIZE, CODE_LENGTH)",
         "harness/pure/src/bin/c10.rs printers, catch_unwind wrappers and its BLAKE2b table builder (blake2b_simd called directly with the UA_F4Jumble_H / UA_F4Jumble_G personalisations)",
-        "BLAKE2b is not modelled: the F4Jumble theorems hold for every pair of functions H, G; each case supplies the H/G outputs it needs as a table",
-        "Gallina re-implementations of the external crates bech32 0.11 (charset, case rule, polymod, code length), bs58 0.5 (Base58Check) and SHA-256, validated only through the repository API by correspondence",
+        "BLAKE2b is not modelled: every theorem holds for all (byte-valued) functions H, G; each case supplies the H/G outputs it needs as a table",
+        "the Gallina transcriptions of the external crates bech32 0.11 (charset, case rule, polymod, code length), bs58 0.5 (Base58Check) and SHA-256 are tied to the code by correspondence through the repository API; their round-trip / canonicity properties are proved about the transcriptions",
     ]
     assumptions = [
         "usize is 64 bits (the harness target)",
         "unified container values have Unknown items only with typecodes 4..=0x02000000 (Receiver::Unknown{typecode: 0..3} or above MAX_COMPACT_SIZE is outside the domain)",
         "zcash_address links the registry release zcash_encoding 0.4.0; its CompactSize::read agrees with the in-tree 0.5.0 model on every observed container",
+        "Base58Check round trip (kind_roundtrip, bridge for CEnc): visible guard that the produced string is not by accident also a valid Bech32/Bech32m string (the parser tries those first); evaluated on every case as part of wf_case",
     ]
     partial_clauses = []
 
